@@ -131,6 +131,13 @@ func init() {
 	verifIntrinsics["verifUnicodeIsPrint"] = func(in *Interp, fr *frame, a []Value) Value {
 		return symIntrinsics["unicode.IsPrint"](in, fr, a)
 	}
+	verifIntrinsics["verifUnicodeIsSpace"] = func(in *Interp, fr *frame, a []Value) Value {
+		return symIntrinsics["unicode.IsSpace"](in, fr, a)
+	}
+	verifIntrinsics["verifModelUnsupported"] = func(in *Interp, fr *frame, a []Value) Value {
+		in.unsupported("stdlib model outside its domain: " + fmt.Sprint(a[0]))
+		return nil
+	}
 	verifIntrinsics["verifNaN"] = func(in *Interp, fr *frame, a []Value) Value { return math.NaN() }
 	verifIntrinsics["verifInf"] = func(in *Interp, fr *frame, a []Value) Value { return math.Inf(1) }
 	verifIntrinsics["verifSignbit"] = func(in *Interp, fr *frame, a []Value) Value {
@@ -289,6 +296,52 @@ func init() {
 	}
 	for _, n := range []string{"(*sync.Mutex).Lock", "(*sync.Mutex).Unlock", "(*sync.RWMutex).Lock", "(*sync.RWMutex).Unlock", "(*sync.RWMutex).RLock", "(*sync.RWMutex).RUnlock"} {
 		intrinsics[n] = nop
+	}
+	// sync.Pool: modelled as a LIFO free list per pool (Get reuses the most recently Put object,
+	// else calls New). Its internal state is synchronised by the runtime, so it is exempt from
+	// the frozen-memory monitor; what flows through it between calls is carried faithfully.
+	// Putting an object that is already in the pool is reported: two later Gets (possibly from
+	// different goroutines) would then share one object.
+	intrinsics["(*sync.Pool).Get"] = func(in *Interp, fr *frame, a []Value) Value {
+		p := a[0].(*Value)
+		if in.pools == nil {
+			in.pools = map[*Value][]Value{}
+		}
+		if l := in.pools[p]; len(l) > 0 {
+			x := l[len(l)-1]
+			in.pools[p] = l[:len(l)-1]
+			return x
+		}
+		st := (*p).(Struct)
+		newFn := st[len(st)-1]
+		switch f := newFn.(type) {
+		case *ssa.Function:
+			if f == nil {
+				return Iface{}
+			}
+		case nil:
+			return Iface{}
+		}
+		return in.call(fr, newFn, nil)
+	}
+	intrinsics["(*sync.Pool).Put"] = func(in *Interp, fr *frame, a []Value) Value {
+		p := a[0].(*Value)
+		x, _ := a[1].(Iface)
+		if x.T == nil {
+			return nil
+		}
+		if in.pools == nil {
+			in.pools = map[*Value][]Value{}
+		}
+		if xp, ok := x.V.(*Value); ok {
+			for _, y := range in.pools[p] {
+				if yp, ok := y.(Iface).V.(*Value); ok && yp == xp {
+					in.frozenWrite("second sync.Pool.Put of an object already in the pool (later Gets would share it)", "pool")
+				}
+			}
+		}
+		in.pools[p] = append(in.pools[p], x)
+		return nil
 	}
 	intrinsics["(*sync.Once).Do"] = func(in *Interp, fr *frame, a []Value) Value {
 		p := a[0].(*Value)
